@@ -289,3 +289,21 @@ join = Contract(
     loops={0: Loop(ghosts=[_JOIN_GHOST],
                    inv=lambda L: [cells(L.chunks) == L.J,
                                   If(L.k == 0, length(L.before) == 0, L.before == T.FmtS.chunks(L.self))])})
+
+
+# ---------------------------------------------------------------------------------------------
+# Chunk.width (callee form): wcswidth of the run's text; ValueError when a non-empty run has width < 1
+# (cwcwidth.wcswidth is an ASSUMED external: WCS).  Body verified in C10.
+# ---------------------------------------------------------------------------------------------
+def _cw_result(a, st):
+    from pyvc.values import mk_int
+    return mk_int(T.WCS(T.ChunkS.s(a.self)))
+
+
+chunk_width = Contract(M + "Chunk.width", "C10", ["self"], kind="property", shapes=[], result=_cw_result,
+                       raises={"ValueError": lambda a: And(z3.Length(T.ChunkS.s(a.self)) > 0, T.WCS(T.ChunkS.s(a.self)) < 1)})
+
+# Chunk.__str__ (callee form): the run's terminal string COLORSTR(chunk); body (color_str) decided in C01
+from pyvc.loops import COLORSTR, STRFOLD
+chunk_str = Contract(M + "Chunk.__str__", "C01", ["self"], kind="method", shapes=[],
+                     result=lambda a, st: Sym("str", COLORSTR(a.self)))
